@@ -363,12 +363,38 @@ func runC19(r *vrt.Run, c C19Case, work string) (o c19Out) {
 				o.msg = fmt.Sprintf("single file not restored: %d bytes vs %d, first difference at %d", len(got), len(content[f.Path]), firstDiff(got, content[f.Path]))
 			}
 		} else {
-			res := runCLI(work, content[f.Path], cargs...)
+			// the standard streams can be left implicit or named (the help documents 'stdin' and 'stdout', in any case)
+			var pin, pout []string
+			switch c.InSpell {
+			case "dot-slash", "abs":
+				pin = []string{"-i", "stdin"}
+			case "trailing-slash":
+				pin = []string{"-i", "STDIN"}
+			case "dotdot":
+				pout = []string{"-o", "stdout"}
+			case "double-slash":
+				pin, pout = []string{"-i", "stdin"}, []string{"-o", "STDOUT"}
+			case "cwd-dot":
+				pin, pout = []string{"-i", "Stdin"}, []string{"-o", "stdout"}
+			}
+			pa := append(append(append([]string{}, cargs...), pin...), pout...)
+			dv := []string{"-v", "0"}
+			if c.DJobs%2 == 1 {
+				// default verbosity: documented to be reduced to 0 by the tool itself when the output is stdout
+				pa = append(append(append([]string{"-c"}, c.Opts...), pin...), pout...)
+				dv = nil
+			}
+			res := runCLI(work, content[f.Path], pa...)
 			if res.rc != 0 {
-				o.msg = "compressing stdin to stdout failed: " + show(cliRes{rc: res.rc, err: res.err})
+				o.msg = fmt.Sprintf("compressing stdin to stdout (%v %v) failed: %s", pin, pout, show(cliRes{rc: res.rc, err: res.err}))
 				return
 			}
-			res2 := runCLI(work, []byte(res.out), "-d", "-v", "0", "-j", dj)
+			da := append(append(append([]string{"-d"}, dv...), append([]string{"-j", dj}, pin...)...), pout...)
+			res2 := runCLI(work, []byte(res.out), da...)
+			if res2.rc != 0 {
+				o.msg = fmt.Sprintf("decompressing stdin to stdout (streams named: %v %v; default verbosity: %v) failed: %s", pin, pout, dv == nil, show(cliRes{rc: res2.rc, err: res2.err}))
+				return
+			}
 			if res2.rc != 0 {
 				o.msg = "decompressing stdin to stdout failed: " + show(cliRes{rc: res2.rc, err: res2.err})
 				return
@@ -703,6 +729,9 @@ func drawC19(t *rapid.T, maxFile int, scenarios []string) C19Case {
 		c.Tree = []TreeFile{{Path: "a.txt", Data: gen.Recipe{Kind: gen.KText, Len: 5000, Seed: 1}}}
 	}
 	switch c.Scenario {
+	case "pipe":
+		// reused as "how the standard streams are named" (see the pipe scenario)
+		c.InSpell = rapid.SampledFrom([]string{"", "dot-slash", "trailing-slash", "dotdot", "double-slash", "cwd-dot", "abs"}).Draw(t, "pipeSpell")
 	case "inplace", "outdir", "outdir-force", "force-over-existing":
 		c.InSpell = rapid.SampledFrom(c19Spells).Draw(t, "inSpell")
 		if rapid.IntRange(0, 11).Draw(t, "many") == 0 {
